@@ -12,7 +12,7 @@ from .. import ast as A, gen, values as V, campaign, universes as U, speccode
 from . import common
 
 LEVEL = "model_checking"
-CLAUSES = ("C14.verifies", "C14.detects", "C14.samebytes")
+CLAUSES = ("C14.verifies", "C14.detects", "C14.samebytes", "C04.equiv")
 
 def inner(rng):
     return rng.choice([A.Alias("Byte"), A.Alias("Int16ub"), A.Bytes(3), A.Struct(A.Renamed("a", A.Alias("Byte")), A.Renamed("b", A.Alias("Int16ul"))),
@@ -58,6 +58,12 @@ def run(ctx):
                                A.Prefixed(A.Alias("Byte"), A.Struct(A.Renamed("r", rc))), A.FixedSized(12, A.Struct(A.Renamed("a", A.Alias("Byte")), A.Renamed("r", rc))),
                                A.Struct(A.Renamed("r1", rc), A.Renamed("r2", A.RawCopy(A.Alias("Byte"))))])
             con = campaign.realizable(prog)
+            comp = None
+            if con is not None and i % 2 == 0:
+                try:
+                    comp = con.compile()
+                except Exception:
+                    comp = None
             if con is not None:
                 for _ in range(3):
                     try:
@@ -82,8 +88,13 @@ def run(ctx):
                             ibd, bd = camp.build(prog, con, wrap({"data": data}), pre, {})
                             camp.sh.session("C14.samebytes", [ibv, ibd])
                         st = rng.choice([0, 1, 3])
-                        camp.parse(prog, con, b"\xee" * st + bytes(bv["res"]["v"]["b"]) + gen.rbytes(rng, 2), st, {})
+                        full = b"\xee" * st + bytes(bv["res"]["v"]["b"]) + gen.rbytes(rng, 2)
+                        ipi, _ = camp.parse(prog, con, full, st, {})
                         nt += 1
+                        # generated code reports the same extents, offsets and raw bytes
+                        if comp is not None:
+                            ipc, _ = camp.parse({"k": "Opaque", "desc": "compiled"}, comp, full, st, {})
+                            camp.sh.session("C04.equiv", [ipi, ipc])
                 for _ in range(2):
                     camp.parse(prog, con, gen.random_input(rng, 8), 0, {})
             # --- Checksum
@@ -104,6 +115,23 @@ def run(ctx):
                 out = bytes(b["res"]["v"]["b"])
                 ip, p = camp.parse(prog, con, out, 0, {})
                 camp.sh.session("C14.verifies", [ib, ip])
+                # the digest is always computed from the bytes just built: a stale one left in the value (parse, edit, build again) is ignored
+                try:
+                    stale = V.dec(p["res"]["v"]) if p["res"]["ok"] else None
+                except Exception:
+                    stale = None
+                if stale is not None:
+                    def edit(o):
+                        import construct as cs
+                        if isinstance(o, dict):
+                            for k in list(o.keys()):
+                                if k in ("chk", "checksum", "digest", "hash"):
+                                    o[k] = (b"\x00" * len(o[k])) if isinstance(o[k], (bytes, bytearray)) else 0
+                                else:
+                                    edit(o[k])
+                    edit(stale)
+                    ib2, b2 = camp.build(prog, con, stale, b"", {})
+                    camp.sh.session("C14.samebytes", [ib, ib2])
                 if fixed and p["res"]["ok"]:
                     # flip every bit of the covered region and of the digest (both lie after `off` header bytes)
                     # covered region + digest follow the `off` header bytes; their lengths come from the real objects
